@@ -479,7 +479,7 @@ func runHLL(c *Ctx) *Violation {
 				c.Probe("decode_into_other_hash_rejected", 1)
 				c.Case("restart@k", true, uint64(bits), uint64(prec), uint64(which), uint64(n), uint64(i))
 				c.Oracle("restart-count")
-				if a.Count() != ref.Count() || b.Count() != ref.Count() {
+				if !sameCount(a.Count(), ref.Count()) || !sameCount(b.Count(), ref.Count()) {
 					return viol("hll-state/"+name+"/restart", "restored sketch counts %v / %v, original %v after %d writes", a.Count(), b.Count(), ref.Count(), i)
 				}
 				back, _ := a.MarshalBinary()
@@ -513,7 +513,7 @@ func runHLL(c *Ctx) *Violation {
 			}
 			got, _ := r.s.MarshalBinary()
 			c.Oracle("restart-continue")
-			if !bytes.Equal(got, final) || r.s.Count() != ref.Count() {
+			if !bytes.Equal(got, final) || !sameCount(r.s.Count(), ref.Count()) {
 				return viol("hll-state/"+name+"/restart", "sketch restored after %d writes and fed the remaining %d differs from the uninterrupted sketch (count %v vs %v)", r.k, n-r.k, r.s.Count(), ref.Count())
 			}
 		}
@@ -526,7 +526,7 @@ func runHLL(c *Ctx) *Violation {
 		if err := unionOf(bits, u, x, y); err != nil {
 			return viol("hll-state/"+name+"/union", "Union of two sketches restored from the same state failed: %v", err)
 		}
-		if u.Count() != ref.Count() {
+		if !sameCount(u.Count(), ref.Count()) {
 			return viol("hll-state/"+name+"/union", "Union of a sketch with itself counts %v, the sketch %v", u.Count(), ref.Count())
 		}
 		// Reset: a restored sketch that is reset and fed again is the
@@ -587,7 +587,7 @@ func runHLL(c *Ctx) *Violation {
 		if err := unionOf(bits, rcv2, x, y); err != nil {
 			return viol("hll-state/"+name+"/union", "Union into a receiver with the same hash function and another precision failed: %v", err)
 		}
-		if rcv2.Count() != ref.Count() {
+		if !sameCount(rcv2.Count(), ref.Count()) {
 			return viol("hll-state/"+name+"/union", "Union into a used receiver of another precision counts %v, the operands' union %v", rcv2.Count(), ref.Count())
 		}
 		return nil
@@ -601,7 +601,10 @@ func runHLL(c *Ctx) *Violation {
 		s.Write([]byte("probe-a"))
 		s.Write([]byte("probe-b"))
 		cnt := s.Count()
-		if math.IsNaN(cnt) || cnt < 0 {
+		// (with the saturating hash of this scenario all registers reach
+		// their largest value, where the estimator's large-range
+		// correction is undefined and Count is NaN for a sound sketch too)
+		if (math.IsNaN(cnt) && which != 2) || cnt < 0 {
 			return fmt.Sprintf("Count() = %v", cnt)
 		}
 		enc, err := s.MarshalBinary()
@@ -712,4 +715,13 @@ func runHLL(c *Ctx) *Violation {
 	}
 	c.agg.Exhaustive["hll-state/byte_offsets_per_encoding"] = int64(len(final))
 	return nil
+}
+
+// sameCount compares two estimates of one register state. (A sketch whose
+// registers are all saturated is outside the estimator's domain - the
+// large-range correction takes the logarithm of a negative number - and counts
+// NaN, before a checkpoint and after it alike; the saturating hash of this
+// scenario gets there in a few hundred writes, a real hash after 2^32 items.)
+func sameCount(a, b float64) bool {
+	return a == b || (math.IsNaN(a) && math.IsNaN(b))
 }
